@@ -91,7 +91,7 @@ Record tables := mkT {
   t_bykey : list (kid * unit);
   t_latest : list ((N * N) * (N * bytes));      (* (ns, author) -> (timestamp, key) *)
   t_namespaces : list (N * cap);
-  t_peers : list ((N * N * N) * unit);           (* multimap ns -> (nanos, peer), as (ns,nanos,peer) *)
+  t_peers : list (N * list (N * N));             (* multimap ns -> values (nanos, peer), ascending *)
   t_policy : list (N * policy);
   t_authors : list (N * N) }.
 
